@@ -67,7 +67,7 @@ POOL = ["@", "@@", "union", "extent", "sealed", "deprecated", "print", "assert",
         "bool", "void0", "void8", "void65", "uint0", "uint8", "uint65", "int1", "int64", "float8", "float32", "utf8", "byte", "truncated", "saturated",
         "Base.1.0", "Base.1", "ns.Base.1.0", "ns.Base.9.9", "Svc.1.0", "ns.Svc.1.0", "U.1.0", "ns.sub.Deep.1.2", "sub.Deep.1.2", "Port.1.0", "_offset_",
         "_extent_", "_bit_length_", "min", "max", "count", "%", "/", "*", "+", "-", "!", "|", "^", "&", "||", "&&", "\t", " ", "\n", "\r\n", "\r",
-        "void8[2]", "void4[<=3]", "void1[<2] v", "\xe9", "\x00", "\x0c", "\u2028", "'\\u12'", "'\\U00110000'", "'\\ud800'", "'a", "X", "x", "a", "VALUE", "value", "Request", "Response",
+        "void8[2]", "void4[<=3]", "void1[<2] v", "{uint8, uint16}.min", "{Base.1.0, U.1.0}.max", "{float32, float64}", ".min", ".max", ".count", "\xe9", "\x00", "\x0c", "\u2028", "'\\u12'", "'\\U00110000'", "'\\ud800'", "'a", "X", "x", "a", "VALUE", "value", "Request", "Response",
         "Svc.1.0._extent_", "Svc.1.0._bit_length_", "Svc.1.0.REQ_CONST", "Svc.1.0 == Svc.1.0", "Svc.1.0[2]", "Svc.1.0.Request", "1/0", "{}", "{1, true}",
         "{1}.min.min", "0.0", "1 % 0", "'' + 1", "uint8[1]", "uint8 == uint8", "bool.x", "1e-400", "1e400"]
 
@@ -251,6 +251,61 @@ def literal_cases(rng, n_random):
         for st in stmts:
             out.append(ns_case({"A.1.0.dsdl": (st % t) + "\n@sealed\n"}, "malformed-literal"))
         out.append(ns_case({"A.1.0.dsdl": "uint8 x\n@extent %s\n" % t}, "malformed-literal"))
+    return out
+
+
+TYPE_EXPRS = ["uint8", "uint16", "int8", "float16", "float32", "float64", "bool", "truncated uint8", "saturated int64", "void8", "byte", "utf8", "uint8[2]",
+              "uint8[<=2]", "bool[<3]", "Base.1.0", "ns.Base.1.0", "U.1.0", "Svc.1.0", "ns.sub.Deep.1.2", "Base.1.0[2]", "U.1.0[<=2]"]
+BIN_OPS = ["||", "&&", "==", "!=", "<=", ">=", "<", ">", "|", "^", "&", "+", "-", "*", "/", "%"]
+
+
+def type_operand_cases(rng, n_random, limit=None):
+    """DSDL type values (primitive, void, array and composite types) as operands of every operator and attribute, alone
+    and inside set literals, in every statement position (implementation only)."""
+    stmts = []
+    pairs = [("uint8", "uint16"), ("float16", "float32"), ("uint8", "int8"), ("Base.1.0", "U.1.0"), ("ns.Base.1.0", "ns.Base.1.0"), ("uint8[2]", "uint8[<=2]"),
+             ("uint8", "Base.1.0"), ("void8", "void16"), ("Svc.1.0", "Base.1.0"), ("bool", "bool")]
+    for a, b in pairs:
+        for attr in ("min", "max", "count", "size", "_extent_", "_bit_length_"):
+            stmts += ["@print {%s, %s}.%s" % (a, b, attr), "@print {%s}.%s" % (a, attr), "@print {%s, %s, %s}.%s" % (a, b, a, attr), "@print {{%s}, {%s}}.%s" % (a, b, attr)]
+        stmts += ["@print {float16, float32, float64}.max", "uint8[<={%s, %s}.max] x" % (a, b), "uint8[{%s, %s}.count] x" % (a, b), "@assert {%s, %s}.min == %s" % (a, b, a),
+                  "@extent {%s, %s}.max" % (a, b), "uint8 X = {%s, %s}.min" % (a, b), "@print {%s, %s}" % (a, b), "@print {%s, 1}" % a, "@print {1, %s}.max" % a,
+                  "@print {%s, 'a'}.min" % a, "@print {%s, true}.count" % a]
+        for op in BIN_OPS + ["**"]:
+            small = " ** " in (" %s " % op)
+            stmts += ["@print %s %s %s" % (a, op, b), "@print {%s} %s {%s}" % (a, op, b), "@print {%s, %s} %s {%s}" % (a, b, op, a)]
+            if not small:
+                stmts += ["@print %s %s 1" % (a, op), "@print 1 %s %s" % (op, a), "@print {%s, %s} %s 1" % (a, b, op), "@print 1 %s {%s, %s}" % (op, a, b),
+                          "@print %s %s 'a'" % (a, op), "@print true %s %s" % (op, a), "@print {1, 2} %s %s" % (op, a), "@print %s %s {1, 2}" % (a, op)]
+            else:
+                stmts += ["@print %s ** 2" % a, "@print 2 ** %s" % a, "@print {%s, %s} ** 2" % (a, b), "@print 2 ** {%s, %s}" % (a, b)]
+        for un in ("!", "-", "+"):
+            stmts += ["@print %s%s" % (un, a), "@print %s{%s, %s}" % (un, a, b)]
+    for t in TYPE_EXPRS:
+        for attr in ("min", "max", "count", "_extent_", "_bit_length_", "VALUE", "x", "Request"):
+            stmts.append("@print %s.%s" % (t, attr))
+        stmts += ["@print %s" % t, "@assert %s" % t, "@assert %s == %s" % (t, t), "uint8 X = %s" % t, "bool X = %s" % t, "uint8[%s] x" % t, "uint8[<=%s] x" % t, "uint8[<%s] x" % t,
+                  "@extent %s" % t, "@print {%s}" % t, "@print {%s}.min.max" % t, "@print {%s, %s}.min" % (t, t), "@print ({%s} | {%s}).max" % (t, t), "@print ({%s} & {%s}).min" % (t, t),
+                  "@print {%s}.count + 1" % t, "@print %s._bit_length_.min" % t, "@print {%s._bit_length_, {1}}.max" % t]
+    for _ in range(n_random):
+        k = rng.choice([2, 2, 3, 4])
+        items = [rng.choice(TYPE_EXPRS + ["1", "'a'", "true", "{1}", "{uint8}"]) for _ in range(k)]
+        body = "{%s}" % ", ".join(items)
+        e = rng.choice(["%s.min", "%s.max", "%s.count", "(%s | %s).max", "(%s & %s).min", "(%s ^ %s).count", "%s == %s", "%s < %s", "%s + 1", "1 - %s", "%s.min.max", "{%s}.min", "{%s, %s}.max"])
+        e = e.replace("%s", body)
+        stmts.append(rng.choice(["@print %s", "@assert %s == 1", "uint8[<=%s] x", "uint8 X = %s", "@extent %s", "float64[%s] y"]) % e)
+    uniq = list(dict.fromkeys(stmts))
+    if limit is not None and len(uniq) > limit:  # quick tier: everything with .min/.max, a random sample of the rest
+        keep = [st for st in uniq if ".min" in st or ".max" in st]
+        rest = [st for st in uniq if not (".min" in st or ".max" in st)]
+        rng.shuffle(rest)
+        uniq = keep[:limit] + rest[:max(0, limit - len(keep))]
+    base_files = {k: v for k, v in NS.items() if k in ("Base.1.0.dsdl", "U.1.0.dsdl", "Svc.1.0.dsdl", "sub/Deep.1.2.dsdl")}
+    out = []
+    for st in uniq:
+        files = dict(base_files)
+        files["T.1.0.dsdl"] = st + ("\n@sealed\n" if not st.startswith("@extent") else "\n")
+        out.append(ns_case(files, "type-operands"))
     return out
 
 
@@ -460,7 +515,7 @@ def generate(rng, tier):
         streams.append(s)
 
     add(ns_case(dict(NS), "baseline"), "corpus")
-    for c in service_cases() + nesting_cases() + control_cases() + limit_cases() + void_array_cases() + dependency_cases() + literal_cases(rng, 100 if tier == "quick" else 2000):
+    for c in service_cases() + nesting_cases() + control_cases() + limit_cases() + void_array_cases() + dependency_cases() + type_operand_cases(rng, 150 if tier == "quick" else 3000, 700 if tier == "quick" else None) + literal_cases(rng, 100 if tier == "quick" else 2000):
         add(c, "targeted")
     for c in sibling_cases(rng, 80 if tier == "quick" else 2000):
         add(c, "targeted")
